@@ -345,6 +345,61 @@ func init() {
 		}
 		l.p("/-- `wpIterator.init` decodes every announced event and parses its fields text, and fails if any of that fails (proposed repair of F20b/F20c) -/")
 		l.p("def wpInitValidatesEvents : Bool := %s", leanBool(validates))
+		// --- Service.Write: which guard decides that a failing jrnl.Write iteration is reported? --------------------
+		// `if err1 != nil { if n <= 0 { err = … }; break }` — journal.Write returns n == 0 whenever it returns an error, so with
+		// this guard EVERY failing iteration is reported, also one after the head of the batch went into an earlier chunk
+		guardNLe0, guardNotWeInit, guardSeen := false, false, false
+		if fd := funcDecl(fp, "Service", "Write"); fd != nil {
+			ast.Inspect(fd.Body, func(n ast.Node) bool {
+				ifs, ok := n.(*ast.IfStmt)
+				if !ok {
+					return true
+				}
+				be, ok := ifs.Cond.(*ast.BinaryExpr)
+				if !ok || be.Op != token.NEQ {
+					return true
+				}
+				if id, ok := be.X.(*ast.Ident); !ok || id.Name != "err1" {
+					return true
+				}
+				hasBreak := false
+				for _, st := range ifs.Body.List {
+					if bs, ok := st.(*ast.BranchStmt); ok && bs.Tok == token.BREAK {
+						hasBreak = true
+					}
+				}
+				if !hasBreak || len(ifs.Body.List) == 0 {
+					return true
+				}
+				guardSeen = true
+				switch first := ifs.Body.List[0].(type) {
+				case *ast.IfStmt:
+					switch c := first.Cond.(type) {
+					case *ast.BinaryExpr:
+						if id, ok := c.X.(*ast.Ident); ok && id.Name == "n" && c.Op == token.LEQ {
+							if v, ok := intLit(c.Y); ok && v == 0 {
+								guardNLe0 = true
+							}
+						}
+					case *ast.UnaryExpr:
+						if id, ok := c.X.(*ast.Ident); ok && c.Op == token.NOT && id.Name == "weInit" {
+							guardNotWeInit = true
+						}
+					}
+				case *ast.AssignStmt:
+					// unconditional `err = …` reports every failing iteration as well
+					if id, ok := first.Lhs[0].(*ast.Ident); ok && id.Name == "err" {
+						guardNLe0 = true
+					}
+				}
+				return false
+			})
+		}
+		if !guardSeen || (!guardNLe0 && !guardNotWeInit) {
+			problem("Service.Write: the `if err1 != nil { if <guard> { err = … }; break }` shape was not recognised (guard n <= 0 / !weInit / none)")
+		}
+		l.p("/-- in `Service.Write` a failing `jrnl.Write` iteration sets the returned error under the guard `n <= 0` (or unconditionally); false: under `!weInit`, which drops an error that follows a partial write -/")
+		l.p("def writeErrGuardIsNLeZero : Bool := %s", leanBool(guardNLe0))
 		l.p("/-- `Service.Write` calls `iw.resetMinMaxTs()` somewhere in its loop -/")
 		l.p("def writeLoopResetsHull : Bool := %s", leanBool(resetCalled))
 		l.write()
